@@ -196,7 +196,7 @@ CHECKS = {
               'many atoms in front of the delimiter and undeclared names are rejected, accepted references are declared atoms '
               'and an index i>=1 is the i-th atom (index 0 is REFUTED with a witness: finding F23), block atoms are the fifth '
               'columns once and in order, duplicates rejected. The equality '
-              'load(print(AST)) = AST for whole .ff and .itp files, and rejection of each listed fault, is differential '
+              'load(print(AST)) = AST for whole .ff, .itp and .mapping files, and rejection of each listed fault, is differential '
               'testing against an expected value computed from the AST (not a theorem).'),
         design_ref='DESIGN.md section 5, C13',
         note=('Trusted: Coq kernel + vm_compute; translator for the section/arity tables; printer and expected-value '
